@@ -4,7 +4,9 @@
   that every C01 / C16 / C17 / C20 theorem is about.
 
   For each translated function the theorem says: on a well-formed readiness set (the cached count
-  is the number of set flags, no flag beyond the length) and an index inside it, the function does
+  is the number of set flags, no flag beyond the length — for the `FixedBitSet` of `ReadinessVec`: no flag
+  that the public API shows; its stored bits beyond the length are unconstrained and not part of the
+  reading, see `TieVec.abs`) and an index inside it, the function does
   not panic, returns what the hand-written kernel function returns, leaves a state whose abstraction
   is the hand-written function's result, and keeps the state well-formed.  `abs` reads the
   translated struct through the *roles* the translator detected (count, flags, parent waker,
@@ -149,42 +151,61 @@ end TieArr
 namespace TieVec
 open StdVec
 
+/-- the flags are read through the public API (`Index` = `BitSet.idx`): the stored bits of a `FixedBitSet` beyond
+    its length (`BitSet.get` at or above `len`) are not part of the reading — and are not zero in general, see the
+    examples at the end of this namespace -/
 def abs (r : ReadinessVec) (b : World) : World :=
-  b.withStd r.roleFlags.len r.roleFlags.get r.roleCount r.roleParent
+  b.withStd r.roleFlags.len r.roleFlags.idx r.roleCount r.roleParent
 
 local macro "unroles" : tactic =>
   `(tactic| try simp only [abs, World.withStd, ReadinessVec.roleFlags, ReadinessVec.roleCount,
       ReadinessVec.roleParent, ReadinessVec.roleMax] at *)
 
+/-- `hi` is about what the public API answers (it follows from `len`); nothing is assumed about the hidden bits -/
 structure Wf (N : Nat) (r : ReadinessVec) : Prop where
   len : r.roleFlags.len = N
-  hi  : ∀ i, N ≤ i → r.roleFlags.get i = false
+  hi  : ∀ i, N ≤ i → r.roleFlags.idx i = false
   cnt : r.roleCount = countRange r.roleFlags.get 0 N
   max : r.roleMax = N
+
+theorem Wf.mk' {N : Nat} {r : ReadinessVec} (hl : r.roleFlags.len = N)
+    (hc : r.roleCount = countRange r.roleFlags.get 0 N) (hm : r.roleMax = N) : Wf N r :=
+  ⟨hl, fun i hi => by simp [BitSet.idx, hl]; omega, hc, hm⟩
+
+theorem idx_lt {s : BitSet} {i : Nat} (h : i < s.len) : s.idx i = s.get i := by simp [BitSet.idx, h]
+theorem idx_ge {s : BitSet} {i : Nat} (h : s.len ≤ i) : s.idx i = false := by
+  simp [BitSet.idx]; intro h'; omega
 
 theorem new_tie (N : Nat) (b : World) :
     ∃ r, ReadinessVec.new N = some r ∧ Wf N r ∧
       abs r b = b.withStd N (fun i => decide (i < N)) N none := by
-  refine ⟨_, rfl, ⟨rfl, ?_, ?_, rfl⟩, ?_⟩
-  · intro i hi; simp [ReadinessVec.roleFlags, BitSet.ones]; omega
+  have hw : N ≤ wordCeil N := by unfold wordCeil; omega
+  have hb : (BitSet.ones N).idx = fun i => decide (i < N) := by
+    funext i
+    by_cases h : i < N
+    · have : i < wordCeil N := by omega
+      simp [BitSet.idx, BitSet.ones, h, this]
+    · simp [BitSet.idx, BitSet.ones, h]
+  have hlen : (BitSet.ones N).len = N := rfl
+  refine ⟨_, rfl, Wf.mk' rfl ?_ rfl, ?_⟩
   · simp only [ReadinessVec.roleFlags, ReadinessVec.roleCount, BitSet.ones]
     rw [countRange_all]; intro i _ h; simp; omega
   · simp [abs, World.withStd, ReadinessVec.roleFlags, ReadinessVec.roleCount,
-      ReadinessVec.roleParent, BitSet.ones]
+      ReadinessVec.roleParent, hb, hlen]
 
 theorem set_ready_tie (N : Nat) (r : ReadinessVec) (b : World) (i : Nat) (h : Wf N r) (hi : i < N) :
     ∃ r', ReadinessVec.set_ready r i = some (r', (abs r b).isSet i) ∧ Wf N r' ∧
       abs r' b = (abs r b).setReady i := by
   obtain ⟨hl, hh, hc, hm⟩ := h
   have hu := countRange_upd r.roleFlags.get 0 N i true (Nat.zero_le _) (by omega)
+  have hix : r.roleFlags.idx i = r.roleFlags.get i := idx_lt (by omega)
   unfold ReadinessVec.set_ready
-  cases hb : r.roleFlags.get i <;> unroles
+  cases hb : r.roleFlags.get i <;> rw [hb] at hix <;> unroles
   · simp [hb] at hu
-    simp_all [BitSet.idx, BitSet.set, uadd, World.isSet, World.setReady]
-    refine ⟨⟨rfl, ?_, by unroles <;> omega, by unroles <;> exact hm⟩, ?_⟩
-    · intro j hj; unroles; simp [hh j hj]; omega
-    · funext j; by_cases hji : j = i <;> simp [upd, hji]
-  · simp_all [BitSet.idx, BitSet.set, uadd, World.isSet, World.setReady]
+    simp [hix, BitSet.set, hl, hi, uadd, World.isSet, World.setReady]
+    refine ⟨Wf.mk' rfl (by unroles; omega) (by unroles; exact hm), ?_⟩
+    funext j; by_cases hji : j = i <;> simp [upd, hji, BitSet.idx, hl, hi]
+  · simp [hix, World.isSet, World.setReady]
     exact ⟨hl, hh, hc, hm⟩
 
 theorem clear_ready_tie (N : Nat) (r : ReadinessVec) (b : World) (i : Nat) (h : Wf N r) (hi : i < N) :
@@ -192,19 +213,19 @@ theorem clear_ready_tie (N : Nat) (r : ReadinessVec) (b : World) (i : Nat) (h : 
       abs r' b = (abs r b).clearReady i := by
   obtain ⟨hl, hh, hc, hm⟩ := h
   have hu := countRange_upd r.roleFlags.get 0 N i false (Nat.zero_le _) (by omega)
+  have hix : r.roleFlags.idx i = r.roleFlags.get i := idx_lt (by omega)
   unfold ReadinessVec.clear_ready
-  cases hb : r.roleFlags.get i
+  cases hb : r.roleFlags.get i <;> rw [hb] at hix
   · unroles
-    simp_all [BitSet.idx, BitSet.set, usub, World.isSet, World.clearReady]
+    simp [hix, World.isSet, World.clearReady]
     exact ⟨hl, hh, hc, hm⟩
   · have hp := countRange_pos r.roleFlags.get 0 N i (Nat.zero_le _) (by omega) hb
     have hge : 1 ≤ r.roleCount := by rw [hc]; exact hp
     unroles
     simp [hb] at hu
-    simp_all [BitSet.idx, BitSet.set, usub, World.isSet, World.clearReady]
-    refine ⟨⟨rfl, ?_, by unroles <;> omega, by unroles <;> exact hm⟩, ?_⟩
-    · intro j hj; unroles; simp [hh j hj]
-    · funext j; by_cases hji : j = i <;> simp [upd, hji]
+    simp [hix, BitSet.set, hl, hi, usub, hge, World.isSet, World.clearReady]
+    refine ⟨Wf.mk' rfl (by unroles; omega) (by unroles; exact hm), ?_⟩
+    funext j; by_cases hji : j = i <;> simp [upd, hji, BitSet.idx, hl, hi]
 
 theorem set_all_ready_tie (N : Nat) (r : ReadinessVec) (b : World) (h : Wf N r) :
     ∃ r', ReadinessVec.set_all_ready r = some (r', ()) ∧ Wf N r' ∧
@@ -212,12 +233,12 @@ theorem set_all_ready_tie (N : Nat) (r : ReadinessVec) (b : World) (h : Wf N r) 
   obtain ⟨hl, hh, hc, hm⟩ := h
   unfold ReadinessVec.set_all_ready
   unroles
-  refine ⟨_, rfl, ⟨?_, ?_, ?_, ?_⟩, ?_⟩
+  refine ⟨_, rfl, Wf.mk' ?_ ?_ ?_, ?_⟩
   · unroles; simpa [BitSet.setAll] using hl
-  · intro j hj; unroles; simp_all [BitSet.setAll]
-  · unroles; simp_all [BitSet.setAll]; rw [countRange_all]; intro j _ hj; simp; omega
+  · unroles; simp only [BitSet.setAll, hm]; rw [countRange_all]; intro j _ hj; simp; omega
   · unroles; exact hm
-  · unroles; simp_all [BitSet.setAll, World.setAllReady]
+  · unroles; simp [BitSet.setAll, World.setAllReady, hm, hl]
+    funext j; by_cases hj : j < N <;> simp [BitSet.idx, hl, hj]
 
 theorem any_ready_tie (r : ReadinessVec) (b : World) :
     ReadinessVec.any_ready r = some (abs r b).anyReady := by
@@ -243,44 +264,50 @@ theorem resize_grow_tie (N : Nat) (r : ReadinessVec) (b : World) (len : Nat) (h 
     ∃ r', ReadinessVec.resize r len = some (r', ()) ∧ Wf len r' ∧
       abs r' b = (abs r b).resize len := by
   obtain ⟨hl, hh, hc, hm⟩ := h
-  unfold ReadinessVec.resize
   rcases Nat.lt_or_eq_of_le hlen with hlt | heq
   · have hcmp : compare len N = .gt := Nat.compare_eq_gt.mpr hlt
-    have hsplit := countRange_split (fun i => decide (N ≤ i) && decide (i < len) || decide (i < N) && r.roleFlags.get i) 0 N (len - N)
-    have h1 : countRange (fun i => decide (N ≤ i) && decide (i < len) || decide (i < N) && r.roleFlags.get i) 0 N
-        = countRange r.roleFlags.get 0 N :=
-      countRange_congr _ _ _ _ (fun i _ hi => by
-        have : ¬ N ≤ i := by omega
-        have h2 : i < N := by omega
-        simp [this, h2])
-    have h2 : countRange (fun i => decide (N ≤ i) && decide (i < len) || decide (i < N) && r.roleFlags.get i) (0 + N) (len - N)
-        = len - N :=
-      countRange_all _ _ _ (fun i hi1 hi2 => by
-        have : N ≤ i := by omega
-        have h3 : i < len := by omega
-        simp [this, h3])
-    have hlen2 : N + (len - N) = len := by omega
-    rw [hlen2, h1, h2] at hsplit
-    have hnlt : ¬ len < N := by omega
-    have hgt : len > N := hlt
-    unroles
-    simp [hcmp, BitSet.grow, BitSet.setRange, hl, hlt, hnlt, hgt, usub, uadd, hlen]
-    refine ⟨⟨rfl, ?_, ?_, rfl⟩, ?_⟩
-    · intro i hi; unroles
-      have : ¬ i < len := by omega
-      have h3 : ¬ i < N := by omega
-      simp [this, h3]
-    · unroles; omega
-    · simp [World.resize, hlt]
+    have hbc : N ≤ blockCeil N := by unfold blockCeil; omega
+    -- the stored bits after `grow(len)` and `set_range(N..len, true)`: whatever `grow` exposed is overwritten
+    let F : Nat → Bool := fun i =>
+      if N ≤ i ∧ i < len then true else (decide (i < blockCeil N) && r.roleFlags.get i)
+    have hgs : (BitSet.grow r.roleFlags len).setRange N len true = some ⟨len, F⟩ := by
+      simp only [BitSet.grow, BitSet.setRange, hl, hlt, if_true, hlen, Nat.le_refl, and_self]
+      rfl
+    have hcnt : countRange F 0 len = countRange r.roleFlags.get 0 N + (len - N) := by
+      have hsplit := countRange_split F 0 N (len - N)
+      rw [show N + (len - N) = len by omega] at hsplit
+      rw [hsplit]
+      congr 1
+      · apply countRange_congr
+        intro i _ hi
+        have h1 : ¬ (N ≤ i ∧ i < len) := by omega
+        have h2 : i < blockCeil N := by omega
+        simp only [F, h1, if_false, h2, decide_true, Bool.true_and]
+      · apply countRange_all
+        intro i h1 h2
+        have h3 : N ≤ i ∧ i < len := by omega
+        simp only [F, h3, and_self, if_true]
+    refine ⟨{ ready_count := r.roleCount + (len - N), max_count := len, readiness_list := ⟨len, F⟩,
+              parent_waker := r.roleParent }, ?_, Wf.mk' rfl ?_ rfl, ?_⟩
+    · unfold ReadinessVec.resize
+      unroles
+      simp [hcmp, hl, hgs, usub, uadd, hlen]
+    · show r.roleCount + (len - N) = countRange F 0 len
+      rw [hcnt, hc]
+    · unroles
+      simp [World.resize, hl, hlt]
       funext j
-      by_cases hj1 : N ≤ j <;> by_cases hj2 : j < len <;> simp [hj1, hj2]
-      all_goals first
-        | (intro hx; rw [hh j hj1] at hx; exact absurd hx (by simp))
-        | (have : j < N := by omega
-           simp [this])
-        | omega
+      by_cases hj1 : N ≤ j <;> by_cases hj2 : j < len
+      · simp [BitSet.idx, F, hj1, hj2]
+      · have h3 : ¬ j < N := by omega
+        simp [BitSet.idx, hj1, hj2, hl, h3]
+      · have h3 : j < N := by omega
+        have h4 : j < blockCeil N := by omega
+        simp [BitSet.idx, F, hj1, hj2, hl, h3, h4]
+      · omega
   · subst heq
     have hcmp : compare N r.roleFlags.len = .eq := by rw [hl]; exact Nat.compare_eq_eq.mpr rfl
+    unfold ReadinessVec.resize
     unroles
     simp [hcmp, hl]
     refine ⟨⟨hl, hh, hc, rfl⟩, ?_⟩
@@ -292,30 +319,32 @@ theorem resize_shrink_wf (N : Nat) (r : ReadinessVec) (len : Nat) (h : Wf N r) (
     ∃ r', ReadinessVec.resize r len = some (r', ()) ∧ Wf len r' ∧
       (∀ i, i < len → r'.roleFlags.get i = r.roleFlags.get i) ∧ r'.roleParent = r.roleParent := by
   obtain ⟨hl, hh, hc, hm⟩ := h
-  unfold ReadinessVec.resize
   have hcmp : compare len N = .lt := Nat.compare_eq_lt.mpr hlen
   have hsplit := countRange_split r.roleFlags.get 0 len (N - len)
   have hlen2 : len + (N - len) = N := by omega
   rw [hlen2, Nat.zero_add] at hsplit
   have hle : len ≤ N := by omega
-  have h1 : countRange (fun i => decide (i < len) && (decide (i < N) && r.roleFlags.get i)) 0 len
-      = countRange r.roleFlags.get 0 len :=
-    countRange_congr _ _ _ _ (fun i _ hi => by
-      have h2 : i < len := by omega
-      have h3 : i < N := by omega
-      simp [h2, h3])
+  have hw1 : len ≤ wordCeil len := by unfold wordCeil; omega
+  have hw2 : wordCeil len ≤ wordCeil N := by unfold wordCeil; omega
   have hge : countRange r.roleFlags.get len (N - len) ≤ r.roleCount := by omega
-  unroles
-  simp [hcmp, BitSet.countFrom, BitSet.truncate, BitSet.idx, hl, hle, hlen, usub]
-  simp [hge]
-  refine ⟨⟨rfl, ?_, ?_, rfl⟩, ?_⟩
-  · intro i hi; unroles
-    have : ¬ i < len := by omega
-    simp [this]
-  · unroles; rw [h1]; omega
-  · intro i hi
-    have : i < N := by omega
-    simp [hi, this]
+  have hcf : BitSet.countFrom r.roleFlags len = some (countRange r.roleFlags.get len (N - len)) := by
+    simp [BitSet.countFrom, hl, hle]
+  -- the copied words: the old bits below `wordCeil len`
+  have hget : ∀ i, i < len → (BitSet.truncate r.roleFlags len).get i = r.roleFlags.get i := by
+    intro i hi
+    have h1 : i < wordCeil len := by omega
+    have h2 : i < wordCeil N := by omega
+    simp [BitSet.truncate, hl, h1, h2]
+  refine ⟨{ ready_count := r.roleCount - countRange r.roleFlags.get len (N - len), max_count := len,
+            readiness_list := BitSet.truncate r.roleFlags len, parent_waker := r.roleParent },
+          ?_, Wf.mk' rfl ?_ rfl, hget, rfl⟩
+  · unfold ReadinessVec.resize
+    unroles
+    simp [hl, hcmp, hcf, usub, hge]
+  · show r.roleCount - countRange r.roleFlags.get len (N - len)
+        = countRange (BitSet.truncate r.roleFlags len).get 0 len
+    rw [countRange_congr _ r.roleFlags.get 0 len (fun i _ hi => hget i (by omega))]
+    omega
 
 /-- `InlineWakerVec::wake` is `World.fireWk (.sub id)` -/
 theorem wake_tie (N : Nat) (r : ReadinessVec) (b : World) (id : Nat) (h : Wf N r) (hi : id < N) :
@@ -325,15 +354,40 @@ theorem wake_tie (N : Nat) (r : ReadinessVec) (b : World) (id : Nat) (h : Wf N r
         (abs r' b).emits (ws.map .woke) = (abs r b).fireWk (.sub id)) := by
   obtain ⟨hl, hh, hc, hm⟩ := h
   have hu := countRange_upd r.roleFlags.get 0 N id true (Nat.zero_le _) (by omega)
+  have hix : r.roleFlags.idx id = r.roleFlags.get id := idx_lt (by omega)
   unfold InlineWakerVec.wake ReadinessVec.set_ready ReadinessVec.parent_waker_fn
-  cases hb : r.roleFlags.get id <;> cases hp : r.roleParent <;> unroles <;> simp [hb] at hu <;>
-    simp_all [BitSet.idx, BitSet.set, uadd, expect, World.isSet, World.fireWk, World.setReady, World.emits,
+  cases hb : r.roleFlags.get id <;> rw [hb] at hix <;> cases hp : r.roleParent <;> unroles <;>
+    simp [hb] at hu <;>
+    simp [hix, hp, BitSet.set, hl, hi, uadd, expect, World.isSet, World.fireWk, World.setReady, World.emits,
       World.emit]
-  · refine ⟨_, _, ⟨rfl, rfl⟩, ⟨rfl, ?_, by unroles <;> omega, by unroles <;> exact hm⟩, ?_⟩
-    · intro j hj; unroles; simp [hh j hj]; omega
-    · simp; funext j; by_cases hji : j = id <;> simp [upd, hji]
-  · exact ⟨r, [], ⟨rfl, rfl⟩, ⟨hl, hh, hc, hm⟩, hl, rfl, hc, hp, rfl⟩
-  · exact ⟨r, [], ⟨rfl, rfl⟩, ⟨hl, hh, hc, hm⟩, hl, rfl, hc, hp, rfl⟩
+  · refine ⟨_, _, ⟨rfl, rfl⟩, Wf.mk' rfl (by unroles; omega) (by unroles; exact hm), ?_⟩
+    simp; funext j; by_cases hji : j = id <;> simp [upd, hji, BitSet.idx, hl, hi]
+  · exact ⟨r, [], ⟨rfl, rfl⟩, ⟨hl, hh, hc, hm⟩, hl, rfl, rfl, hp, rfl⟩
+  · exact ⟨r, [], ⟨rfl, rfl⟩, ⟨hl, hh, hc, hm⟩, hl, rfl, rfl, hp, rfl⟩
+
+/-! ### the hidden bits of a `FixedBitSet` (why `abs` reads through `idx`)
+
+  `FixedBitSet::with_capacity_and_blocks(n, repeat(!0))` (fixedbitset 0.5.7, src/lib.rs l. 127-133) writes whole `usize`
+  words through `as_mut_slice()` (l. 738-748) and does not mask the last one; `grow` (l. 137-149, `grow_inner`
+  l. 155-168) keeps the old storage blocks and appends zeroed `SimdBlock`s.  So after `new(3)` a `grow(5)` alone shows
+  the bits 3 and 4 as SET; only from the next 128-bit block on are the new bits clear.  `resize` overwrites the
+  exposed bits (`set_range(old_len..len, true)`) and adds `len - old_len` to the count, so it does not depend on them
+  (`resize_grow_tie` assumes nothing about hidden bits); a `resize` that armed the new slots through `set_ready`
+  would skip the stale ones and leave the count short. -/
+example : (BitSet.grow (BitSet.ones 3) 5).idx 3 = true := by decide
+example : (BitSet.grow (BitSet.ones 3) 5).idx 4 = true := by decide
+example : (BitSet.grow (BitSet.ones 3) 70).idx 63 = true ∧ (BitSet.grow (BitSet.ones 3) 70).idx 64 = false := by decide
+example : (BitSet.grow (BitSet.ones 128) 130).idx 128 = false := by decide
+/-- the unchanged `resize` is indifferent to them: 3 → 5 gives five visible set bits and a count of 5 -/
+example : (do let r ← ReadinessVec.new 3
+              let (r, _) ← ReadinessVec.resize r 5
+              pure (r.roleCount, (List.range 6).map r.roleFlags.idx))
+            = some (5, [true, true, true, true, true, false]) := by decide
+/-- shrinking hides bits without clearing them (`with_capacity_and_blocks(len, old words)` copies whole words):
+    after 5 → 3 the stored bit 3 is still set, and a bare `grow` would show it again -/
+example : (do let r ← ReadinessVec.new 5
+              let (r, _) ← ReadinessVec.resize r 3
+              pure (r.roleCount, r.roleFlags.idx 3, (BitSet.grow r.roleFlags 5).idx 3)) = some (3, false, true) := by decide
 
 end TieVec
 
